@@ -160,6 +160,18 @@ func genArMember(t *rapid.T, label string) ArMember {
 	m.MTime = int64(rapid.Uint64Range(0, 999999999999).Draw(t, label+"mtime"))
 	m.UID = int64(rapid.IntRange(0, 999999).Draw(t, label+"uid"))
 	m.GID = int64(rapid.IntRange(0, 999999).Draw(t, label+"gid"))
+	if rapid.IntRange(0, 11).Draw(t, label+"signed") == 0 {
+		// the columns are signed decimal text: ar writes a time before 1970 as "-3600" and the
+		// owner "nobody" of some systems as -1 or -2
+		switch rapid.IntRange(0, 2).Draw(t, label+"signedCol") {
+		case 0:
+			m.MTime = -int64(rapid.Uint64Range(1, 99999999999).Draw(t, label+"negmtime"))
+		case 1:
+			m.UID = -int64(rapid.IntRange(1, 99999).Draw(t, label+"neguid"))
+		default:
+			m.GID = -int64(rapid.IntRange(1, 99999).Draw(t, label+"neggid"))
+		}
+	}
 	m.Mode = strconv.FormatInt(int64(rapid.IntRange(0, 0o77777777).Draw(t, label+"mode")), 8)
 	if rapid.IntRange(0, 2).Draw(t, label+"stdmode") == 0 {
 		m.Mode = "100644"
